@@ -397,10 +397,21 @@ func init() {
 					}
 					fr.SetConfiguration(cfg)
 					var want *lint.LintResult
-					if crl != nil {
-						want = zlint.LintRevocationListEx(crl, fr).Results[cc.lint]
-					} else {
-						want = zlint.LintCertificateEx(crt, fr).Results[cc.lint]
+					func() {
+						defer func() {
+							if pv := recover(); pv != nil {
+								out.Violate("C11|panic:"+cc.lint, fmt.Sprintf("linting %s under the configuration %q panics instead of reporting a configuration error: %v", cc.file, cc.cfg, pv),
+									map[string]interface{}{"config": cc.cfg, "file": cc.file, "lint": cc.lint}, "fatal with a configuration error", fmt.Sprint(pv))
+							}
+						}()
+						if crl != nil {
+							want = zlint.LintRevocationListEx(crl, fr).Results[cc.lint]
+						} else {
+							want = zlint.LintCertificateEx(crt, fr).Results[cc.lint]
+						}
+					}()
+					if want == nil {
+						continue
 					}
 					var got map[string]*lint.LintResult
 					_ = json.Unmarshal([]byte(r.stdout), &got)
